@@ -110,6 +110,26 @@ func c02Repeat(useShipped bool) func(t *rapid.T) {
 			part.SearchUniversal("list", database.SearchOptions{Limit: 5, UseNLP: false, UseFuzzy: rapid.Bool().Draw(t, "grown-fuzzy")})
 			db, grown = part, true
 		}
+		replaced := false
+		if !useShipped && !grown && len(cmds) >= 1 && len(cmds) <= 200 && !strings.HasPrefix(string(cls), "in-memory") && rapid.IntRange(0, 4).Draw(t, "replaced-copy") == 0 {
+			// the first copy held other content of the same size before, was searched there (lexically,
+			// with NLP, through the typo fallback), and was then given the present content
+			old := make([]database.Command, len(cmds))
+			for i := range old {
+				old[i] = gen.Command(gen.CmdOpts{}).Draw(t, "old-entry")
+			}
+			odb := gen.Load(t, old)
+			for _, oq := range []string{"find files", gen.Typo(t, append(gen.Tokens(old), "alpha")[0]), "zq"} {
+				odb.SearchUniversal(oq, database.SearchOptions{Limit: 5, UseNLP: rapid.Bool().Draw(t, "old-nlp"), UseFuzzy: true, PipelineOnly: rapid.IntRange(0, 3).Draw(t, "old-ponly") == 0})
+			}
+			fresh := gen.Load(t, cmds)
+			// (through UpdateDatabase, the documented way to replace the content; assigning Commands
+			// and calling BuildUniversalIndex alone leaves the re-ranker as it was - not a supported history)
+			c := database.NewCachedDatabase(odb)
+			c.UpdateDatabase(fresh.Commands)
+			db = c.Database
+			replaced = true
+		}
 		withEmb := false
 		if !useShipped && len(cmds) <= 80 && rapid.IntRange(0, 2).Draw(t, "embeddings") == 0 {
 			// the optional semantic stage: equal index content attached to both copies
@@ -175,7 +195,7 @@ func c02Repeat(useShipped bool) func(t *rapid.T) {
 			}
 		}
 		// the older entry points, which merge and sort candidate lists of their own
-		for name, call := range map[string]func(d *database.Database, o database.SearchOptions) []database.SearchResult{
+		older := map[string]func(d *database.Database, o database.SearchOptions) []database.SearchResult{
 			"SearchWithFuzzy": func(d *database.Database, o database.SearchOptions) []database.SearchResult {
 				return d.SearchWithFuzzy(q, o)
 			},
@@ -188,7 +208,9 @@ func c02Repeat(useShipped bool) func(t *rapid.T) {
 			"SearchWithPipelineOptions": func(d *database.Database, o database.SearchOptions) []database.SearchResult {
 				return d.SearchWithPipelineOptions(q, o)
 			},
-		} {
+		}
+		for _, name := range []string{"SearchWithFuzzy", "SearchWithNLP", "SearchWithOptions", "SearchWithPipelineOptions"} {
+			call := older[name]
 			if useShipped && name != "SearchWithPipelineOptions" {
 				continue // linear scans of 6,619 entries: kept to the generated databases
 			}
@@ -221,6 +243,9 @@ func c02Repeat(useShipped bool) func(t *rapid.T) {
 		labels := []string{"db:" + string(cls), "q:" + string(qcls)}
 		if withEmb {
 			labels = append(labels, "embedding-index-attached")
+		}
+		if replaced {
+			labels = append(labels, "replaced-copy")
 		}
 		if grown {
 			labels = append(labels, "grown-copy")
